@@ -155,6 +155,18 @@ def fraction_values(ctx, r, n, dens):
                 break
         if ea == eb and float(a) == float(b) and (a < b or a > b or not a <= b or not a >= b):
             ctx.violation("FractionValue-order-incoherent-on-equal-amounts", {"a": ca, "b": cb})
+        # ... and against a plain number on either side (`value > 0`, `2 > value`): answered like the amounts
+        k = r.choice([0, 1, 2, -1, 0.5, 2.5, float(eb)])
+        for nm, op in ops:
+            ctx.ev()
+            try:
+                g1, g2 = op(a, k), op(k, a)
+            except Exception as e:
+                ctx.violation("FractionValue-order-with-a-plain-number-raised:%s" % type(e).__name__, {"a": ca, "k": repr(k), "op": nm, "error": str(e)[:120]})
+                break
+            if abs(ea - Fr(k)) > noise and (bool(g1) != op(ea, Fr(k)) or bool(g2) != op(Fr(k), ea)):
+                ctx.violation("FractionValue-order-with-a-plain-number-disagrees:%s" % nm, {"a": ca, "k": repr(k), "value_op_k": bool(g1), "k_op_value": bool(g2)})
+                break
     # the same amount split differently is equal in order (and == only compares the parts)
     for num, p, q in ((1, 1, 2), (0, 3, 2), (2, 3, 4), (5, 1, 4)):
         a, b = FractionValue(num, (p, q)), FractionValue(float(dec(num) + Fr(p, q)))
